@@ -21,8 +21,7 @@
 (***************************************************************************)
 EXTENDS Ownership, TraceBase
 
-VARIABLES l, st,
-          leaked     \* ghost: reserved bytes of regions whose into_vec succeeded while claimed (known finding)
+VARIABLES l, st
 
 Empty == [rg |-> [r \in Regions |-> NoRegion], hd |-> [x \in Handles |-> NoHandle], pool |-> 0]
 
@@ -113,43 +112,30 @@ ObsOK(ev, S) ==
   /\ J(\A j \in 1..Len(ev.relr) : ev.relc[j] = S.rg[ev.relr[j]].released, <<ev.op, "owner release count">>)
   /\ J(\A j \in 1..Len(ev.strel) : ev.strel[j] <= 1, <<ev.op, "stream released twice">>)
 
-(* Known finding: Buffer::into_vec forgets the Bytes (std::mem::forget) and  *)
-(* with it the pool reservation, which is then never returned.  The array    *)
-(* forms reach into_vec through PrimitiveBuilder::new_from_buffer when the   *)
-(* values memory has a Vec layout (otherwise they copy and release properly) *)
-ViaIntoVec(ev) ==
-  \/ ev.op = "into_vec" /\ ev.ok
-  \/ ev.op \in ArrayOps \cup {"try_unary_mut_err"} /\ ev.ok /\ st.rg[st.hd[ev.x].refs[1]].kind = "vec"
-Leak(ev) == IF ViaIntoVec(ev) /\ st.rg[st.hd[ev.x].refs[1]].claimed
-            THEN st.rg[st.hd[ev.x].refs[1]].size ELSE 0
-KF_Pool(ev, S) == IF leaked + Leak(ev) > 0 /\ ev.pool = S.pool + leaked + Leak(ev)
-                  THEN "C16-into-vec-leaks-pool-reservation" ELSE ""
-
-Init == l = 1 /\ st = Empty /\ leaked = 0
+Init == l = 1 /\ st = Empty
 
 Next ==
   /\ l <= Len(Rec)
   /\ l' = l + 1
   /\ LET ev == Rec[l] IN
      IF ev.op = "reset"
-     THEN st' = Empty /\ leaked' = 0
+     THEN st' = Empty
      ELSE IF ev.op = "end"         \* every handle was dropped: nothing is left, all owners released, pool empty
      THEN /\ J(Live(st.hd) = {} /\ ev.hs = <<>>, "end: live handles")
           /\ J(\A j \in 1..Len(ev.relr) : ev.relc[j] = 1, "end: an owner was not released exactly once")
           /\ J(\A j \in 1..Len(ev.strel) : ev.strel[j] = 1, "end: a stream was not released exactly once")
           /\ J(\A r \in Created(st) : st.rg[r].released = 1, "end: region not released")
-          /\ J(ev.pool = leaked, <<"end: pool not empty", ev.pool, leaked>>)
-          /\ UNCHANGED <<st, leaked>>
+          /\ J(ev.pool = 0 /\ st.pool = 0, <<"end: pool not empty", ev.pool, st.pool>>)
+          /\ UNCHANGED st
      ELSE IF ~Enabled(ev)
-     THEN J(FALSE, <<ev.op, "not offered">>) /\ UNCHANGED <<st, leaked>>
+     THEN J(FALSE, <<ev.op, "not offered">>) /\ UNCHANGED st
      ELSE LET S == After(ev) IN
           /\ J(RuleOK(ev), <<ev.op, "in-place / release rule">>)
           /\ ObsOK(ev, S)
-          /\ JudgeKF(ev.pool = S.pool, l, "pool", KF_Pool(ev, S))
+          /\ J(ev.pool = S.pool, <<ev.op, "pool", ev.pool, S.pool>>)      \* O4, on every path
           /\ st' = S
-          /\ leaked' = leaked + Leak(ev)
 
-Spec == Init /\ [][Next]_<<l, st, leaked>>
+Spec == Init /\ [][Next]_<<l, st>>
 
 O1_NoDangling  == NoDangling(st)
 O2_Immutable   == Immutable(st)
